@@ -13,15 +13,20 @@ def sh(cmd, cwd=None, env=None, timeout=1800):
 
 
 def main():
-    props = sys.argv[1:]
+    args = sys.argv[1:]
+    root, offset = '/tmp/seeds', 0
+    if args and args[0] == '--round2':
+        root, offset = '/tmp/seeds2', 3
+        args = args[1:]
+    props = args
     log = subprocess.run('git -C /repo log --format=%H', shell=True, capture_output=True, text=True).stdout.split()
-    for d in sorted(glob.glob('/tmp/seeds/C*/[0-9]')) + sorted(glob.glob('/tmp/seeds_ported/*')):
+    for d in sorted(glob.glob(root + '/C*/[0-9]')) + (sorted(glob.glob('/tmp/seeds_ported/*')) if offset == 0 else []):
         parts = d.rstrip('/').split('/')
         if 'seeds_ported' in d:
             prop, k = parts[-1].split('_')
             src_notes = '/tmp/seeds/%s/%s' % (prop, k)
         else:
-            prop, k = parts[-2], parts[-1]
+            prop, k = parts[-2], str(int(parts[-1]) + offset)
             src_notes = d
         if props and prop not in props:
             continue
